@@ -173,6 +173,9 @@ func c02Worker(w *core.WorkerCtx) {
 	if w.Batch == 5 || (w.Thorough() && w.Batch%20 == 5) {
 		c02OneSpendTwoNodes(w)
 	}
+	if w.Batch == 6 || (w.Thorough() && w.Batch%20 == 6) {
+		c02TrustedChild(w)
+	}
 	n := w.Pick(10, 50)
 	// (a) single node, sequential: the ledger is a single chain, conservation must hold strictly
 	runRandomScenarios(w, []string{"C02"}, n, func(p *ledger.Profile) {
@@ -537,5 +540,72 @@ func c02OneSpendTwoNodes(w *core.WorkerCtx) {
 		w.R.Count("c02_one_spend_handed_to_two_nodes_at_once", 1)
 		world.NontrivFor("C02", fmt.Sprintf("one-spend-two-nodes/gossip-admitted=%v/sealed=%v/seal-first=%v", errGossip == nil, errSeal == nil, sealFirst))
 		world.Close()
+	}
+}
+
+// c02TrustedChild: the node trusts a sealer. That sealer's vertices skip the funds test - their parents do not. An
+// overdrawing vertex sealed by somebody the node does not trust arrives and becomes a tentative tip; a vertex of the
+// trusted sealer that carries no spice names it as its parent (by gossip, by the orphan buffer, and as one of two
+// parents). The overdrawing tip must be dropped as always: over the confirmed vertices no wallet is overdrawn.
+func c02TrustedChild(w *core.WorkerCtx) {
+	rng := core.Rand(w.Seed, "C02trustedchild", w.Batch)
+	desc := fmt.Sprintf("c02 a trusted sealer's vertex names an overdrawing tip as its parent seed=%d batch=%d", w.Seed, w.Batch)
+	w.Mark("%s", desc)
+	world := ledger.NewWorld(rng, w.R, []string{"C02"}, allSnapOracles, desc)
+	defer world.Close()
+	if _, err := ledger.Setup(world, ledger.Profile{Nodes: 1, Users: 5, SupplyClass: 0, Delivery: "lockstep"}); err != nil {
+		w.R.Inconc("setup failed: " + err.Error())
+		return
+	}
+	n := world.Nodes[0]
+	u := world.Users
+	trusted, stranger := world.Sealers[0], world.Sealers[1]
+	world.Trust(n, trusted.Addr, true)
+	for i := 1; i < len(u); i++ {
+		t := world.NewTrx(u[0], u[i].Addr, spice.Melange{Currency: 10}, nil)
+		world.Propose(n, &t, "fund")
+	}
+	for round := 0; round < w.Pick(9, 30); round++ {
+		var tip ledger.H
+		var wgt uint64
+		found := false
+		for h := range n.Prev.Leaves {
+			if v, ok := n.Prev.Vertex(h); ok && v.Weight >= wgt {
+				tip, wgt, found = h, v.Weight, true
+			}
+		}
+		if !found {
+			break
+		}
+		from := u[1+round%4]
+		ot := world.NewTrx(from, u[1+(round+1)%4].Addr, spice.Melange{Currency: uint64(1000 + rng.Intn(1000))}, nil)
+		ov := ledger.ForgeVertex(stranger, ot, tip, tip, wgt+1, world.Now())
+		ct := world.NewTrx(u[0], u[1].Addr, spice.Melange{}, []byte(fmt.Sprintf("sealed by the trusted sealer %d", round)))
+		var cerr error
+		entry := []string{"gossip", "orphan-replay", "two-parents"}[round%3]
+		switch entry {
+		case "gossip":
+			world.Deliver(n, &ov, "overdrawing vertex of a stranger")
+			cv := ledger.ForgeVertex(trusted, ct, ov.Hash, ov.Hash, wgt+2, world.Now())
+			cerr = world.Deliver(n, &cv, "vertex of the trusted sealer on the overdrawing tip")
+		case "orphan-replay":
+			cv := ledger.ForgeVertex(trusted, ct, ov.Hash, ov.Hash, wgt+2, world.Now())
+			cerr = world.Deliver(n, &cv, "vertex of the trusted sealer before its overdrawing parent")
+			world.Deliver(n, &ov, "overdrawing vertex of a stranger")
+			for k := 0; k < 4; k++ {
+				world.Retry(n)
+			}
+		default:
+			world.Deliver(n, &ov, "overdrawing vertex of a stranger")
+			cv := ledger.ForgeVertex(trusted, ct, tip, ov.Hash, wgt+2, world.Now())
+			cerr = world.Deliver(n, &cv, "vertex of the trusted sealer on the old tip and the overdrawing tip")
+		}
+		for k := 0; k < 2; k++ {
+			m := world.NewTrx(u[0], u[2].Addr, spice.Melange{}, []byte("next"))
+			world.Propose(n, &m, "next vertex")
+		}
+		world.CheckConservation(n)
+		w.R.Count("c02_trusted_children_of_overdrawing_tips", 1)
+		world.NontrivFor("C02", fmt.Sprintf("trusted-child/%s/child-refused=%v", entry, cerr != nil))
 	}
 }
